@@ -275,6 +275,25 @@ def run_case(case):
                      "%s level %d at the end: bodies run again: %s" % (label, l, [e[1] for e in REC.since(mark)]))
             out["obs"]["levels_served_again_at_the_end"] += 1
             check_partition(out, fail, again, overlays[l], label, "level %d, served again after its children were stored" % l)
+        # at the very end, on a store without memory cache (the handle is nobody else's): a partition read back from the
+        # store is given another level as merge parent and handed on - what the function returns, what a later call gets
+        # and what is read back must be the same overlay (the handle's own entries win)
+        if L > 1 and st._memory_cache is None and not out["viol"]:
+            l, under = rng.sample(range(L), 2)
+            if any(h[0] == l for h in held) and any(h[0] == under for h in held):
+                want = dict(overlays[under])
+                want.update(overlays[l])
+                what = "level %d read back and given level %d as merge parent" % (l, under)
+                try:
+                    got = ffuncs.rebased(cid, l, under)
+                    out["obs"]["read_back_partitions_given_a_merge_parent"] += 1
+                    check_partition(out, fail, got, want, label, what + ", value handed back by the computing call")
+                    check_partition(out, fail, ffuncs.rebased(cid, l, under), want, label, what + ", later call")
+                    rm = ffuncs.rebased.memento(cid, l, under)
+                    if rm is not None:
+                        check_partition(out, fail, plain.read_result(rm), want, label, what + ", re-read from disk")
+                except Exception as e:
+                    fail("call returning a partition raises " + type(e).__name__, "%s %s: %r" % (label, what, e))
         if overlap and L > 1 and not out["viol"]:
             out["nontrivial"].append("%d|%s|%s|%s" % (L, ",".join(kinds), ",".join(modes[1:]), bname))
         out["sample"] = {"backend": bname, "kinds": kinds, "keys": keysets, "parent_provenance": modes[1:]}
